@@ -132,6 +132,11 @@ def laws(tier):
         out.append(_i("%s(Bytes(3))<->Bytes(3)" % w, "%s(Bytes(3))" % w, "Bytes(3)", [2, 3, 4], ("bytes", 3)))
         out.append(_i("%s(Struct)<->Struct" % w, "%s(Struct('a'/Byte,'b'/VarInt))" % w, "Struct('a'/Byte,'b'/VarInt)", [1, 2, 3],
                       ("struct", [["a", ("fmt", "Int8ub")], ["b", ("varint",)]])))
+    for w in ("Hex", "HexDump"):
+        out.append(_i("%s(BytesInteger(this.n))<->bare (keyword size)" % w, "%s(BytesInteger(this.n + 1))" % w, "BytesInteger(this.n + 1)", [0, 1, 2, 3, 4], None, kw=["n"]))
+        out.append(_i("%s(Bytes(this.n))<->bare (keyword size)" % w, "%s(Bytes(this.n))" % w, "Bytes(this.n)", [0, 1, 2, 3], None, kw=["n"]))
+        out.append(_i("%s in Struct with field-sized member" % w, "Struct('n'/Byte, 'v'/%s(BytesInteger(this.n & 3 | 1)))" % w, "Struct('n'/Byte, 'v'/BytesInteger(this.n & 3 | 1))", [0, 1, 2, 3, 4],
+                      None))
     out.append(_i("x[n]<->Array", "Int16ub[2]", "Array(2, Int16ub)", [3, 4, 5], ("array", 2, ("fmt", "Int16ub"))))
     out.append(_i("x[this.n]<->Array(this.n)", "Byte[this.n]", "Array(this.n, Byte)", [0, 1, 2, 3], ("arraykw", "n", ("fmt", "Int8ub")), kw=["n"]))
     out.append(_i("a+b<->Struct", "'a'/Byte + 'b'/Int16sl + 'c'/VarInt", "Struct('a'/Byte, 'b'/Int16sl, 'c'/VarInt)", [2, 3, 4, 5],
